@@ -13,12 +13,12 @@ func init() {
 		Assume:    []string{"sequentially consistent atomics", "a thread is leaked iff it was spawned (transitively) by NewStore and is not finished when nothing else can run"},
 		Quick: []Scenario{
 			mk("D1-writers-full-queue", 8, "2", 60), mk("D2-wait-vs-close", 4, "2", 60), mk("D2b-close-then-wait", 4, "2", 60), mk("D3-readers", 8, "2", 60), mk("D4-loading", 6, "2", 60), mk("D5-hybrid", 6, "2", 60), mk("D6-close-close", 6, "2", 60), mk("D7-close-vs-eviction", 6, "2", 60), mk("D8-close-vs-expiry", 6, "2", 60),
-			mk("D9-close-vs-save", 6, "2", 60), mk("D9b-close-vs-views", 6, "2", 60), mk("D10-hybrid-lookup-delete", 6, "2", 60), mk("D10b-hybrid-loading", 6, "2", 60), mk("D11-no-close-two-waiters", 8, "2", 60), mk("D10c-hybrid-failed-delete", 6, "2", 60),
+			mk("D9-close-vs-save", 6, "2", 60), mk("D9b-close-vs-views", 6, "2", 60), mk("D10-hybrid-lookup-delete", 6, "2", 60), mk("D10b-hybrid-loading", 6, "2", 60), mk("D10d-hybrid-get-after-close", 4, "2", 60), mk("D11-no-close-two-waiters", 8, "2", 60), mk("D10c-hybrid-failed-delete", 6, "2", 60),
 			mk("D1d-deleters-full-queue", 6, "2", 60), mk("D1h-hybrid-deleters-full-queue", 6, "2", 60), mk("D1L-loaders-full-queue", 6, "2", 60),
 		},
 		Thorough: []Scenario{
 			mk("D1-writers-full-queue", 16, "3", 900), mk("D1b-three-writers", 16, "2", 900), mk("D2-wait-vs-close", 16, "3", 900), mk("D2b-close-then-wait", 16, "3", 900), mk("D3-readers", 16, "3", 900), mk("D4-loading", 16, "3", 900), mk("D5-hybrid", 16, "3", 900), mk("D5b-hybrid-2workers", 16, "2", 900), mk("D6-close-close", 16, "3", 900), mk("D7-close-vs-eviction", 16, "3", 900), mk("D8-close-vs-expiry", 16, "3", 900),
-			mk("D9-close-vs-save", 16, "3", 900), mk("D9b-close-vs-views", 16, "3", 900), mk("D10-hybrid-lookup-delete", 16, "3", 900), mk("D10b-hybrid-loading", 16, "3", 900), mk("D11-no-close-two-waiters", 16, "3", 900), mk("D10c-hybrid-failed-delete", 16, "3", 900),
+			mk("D9-close-vs-save", 16, "3", 900), mk("D9b-close-vs-views", 16, "3", 900), mk("D10-hybrid-lookup-delete", 16, "3", 900), mk("D10b-hybrid-loading", 16, "3", 900), mk("D10d-hybrid-get-after-close", 16, "3", 900), mk("D11-no-close-two-waiters", 16, "3", 900), mk("D10c-hybrid-failed-delete", 16, "3", 900),
 			mk("D1d-deleters-full-queue", 16, "3", 900), mk("D1h-hybrid-deleters-full-queue", 16, "3", 900), mk("D1L-loaders-full-queue", 16, "3", 900), mk("D1p-hybrid-promotions-full-queue", 16, "3", 900),
 		},
 	})
